@@ -53,6 +53,9 @@ camera_open(const struct DeviceManager* system,
 
     return self;
 Error:
+    // An opened device with an incomplete interface still has to be closed.
+    if (self)
+        camera_close(self);
     return 0;
 }
 
